@@ -1,7 +1,16 @@
-(** C14 — model of internal/rules/rule_factory_impl.go
-    (createExecutePipeline, createOnErrorPipeline, createHandler, getConfig,
-    getExecutionCondition, initWithDefaultRule, CreateRule up to the matcher
-    assembly).  Faithful to the code as it is; Go panics are explicit. *)
+(** C14 — model of the code as it is:
+    - internal/rules/rule_factory_impl.go (createExecutePipeline, createOnErrorPipeline,
+      createHandler, checkMechanismReference, getExecutionCondition, initWithDefaultRule,
+      CreateRule up to the matcher assembly),
+    - internal/rules/rule_impl.go Execute with composite_subject_creator.go,
+      composite_subject_handler.go, composite_error_handler.go, conditional_*_handler.go
+      (the trace of mechanisms executed for a request),
+    - internal/rules/config/parser.go + rule.go (the two validations that concern this
+      property), internal/rules/ruleset_processor_impl.go (OnCreated / OnUpdated) and the
+      part of repository_impl.go that decides which rule serves a path.
+    Go panics are an explicit outcome; since fix f8fe9cb (finding C19-F3) no branch of
+    the factory panics any more, [Panic] remains only as an observation of the
+    implementation. *)
 From HV Require Import Base.Prelude.
 
 Inductive kind := KAuthn | KAuthz | KCtx | KFin | KEh.
@@ -13,15 +22,20 @@ Definition kind_eqb (a b : kind) : bool :=
   end.
 
 (** The value found under a mechanism-kind key of a step map: [k_id = None]
-    means "not a string" (the unchecked [id.(string)] panics); [k_ok] is the
-    answer of the mechanism factory for this reference (unknown mechanism or
-    bad override => false). *)
+    means "not a string"; [k_ok] is the answer of the mechanism factory for this
+    reference together with the step's override (unknown mechanism or bad
+    override => false).  In the stub streams it is fixed by the generator (the
+    stub catalogue knows the ids "<n>" and refuses overrides carrying the key
+    "bad"); in the real-factory stream it is the catalogue/override table of the
+    driver — never the answer of the code under test. *)
 Record keyv := { k_id : option nat; k_ok : bool }.
 
-(** value under "config": absent, a map, anything else ([getConfig] panics) *)
-Inductive cfgv := CfgNil | CfgMap | CfgBad.
-(** value under "if": absent, valid CEL, empty string, not a string, invalid CEL *)
-Inductive condv := CondNil | CondOk | CondEmpty | CondNotStr | CondBadCel.
+(** value under "config": absent, a map (with the marker the stub mechanisms
+    report back), anything else *)
+Inductive cfgv := CfgNil | CfgMap (n : nat) | CfgBad.
+(** value under "if": absent, valid CEL (number of the expression in the
+    driver's table), empty string, not a string, invalid CEL *)
+Inductive condv := CondNil | CondOk (n : nat) | CondEmpty | CondNotStr | CondBadCel.
 
 Record step := {
   s_authn : option keyv; s_authz : option keyv; s_ctx : option keyv; s_fin : option keyv;
@@ -29,36 +43,41 @@ Record step := {
 
 Record ehstep := { e_key : option keyv; e_if : condv; e_cfg : cfgv }.
 
-(** a created mechanism: kind, referenced id, whether it is wrapped in a CEL condition *)
-Record mech := { m_kind : kind; m_id : nat; m_cond : bool }.
+(** a created mechanism: kind, referenced id, its execution condition (None =
+    unconditional), the override it was created with (None = the prototype) *)
+Record mech := { m_kind : kind; m_id : nat; m_cond : option nat; m_cfg : option nat }.
+
+Definition onat_eqb := option_eqb Nat.eqb.
 
 Definition mech_eqb (a b : mech) : bool :=
-  kind_eqb (m_kind a) (m_kind b) && Nat.eqb (m_id a) (m_id b) && Bool.eqb (m_cond a) (m_cond b).
+  kind_eqb (m_kind a) (m_kind b) && Nat.eqb (m_id a) (m_id b) &&
+  onat_eqb (m_cond a) (m_cond b) && onat_eqb (m_cfg a) (m_cfg b).
 
 Inductive res (A : Type) := Ok (a : A) | Rejected | Panic.
 Arguments Ok {A} a. Arguments Rejected {A}. Arguments Panic {A}.
 
-Definition cond_res (c : condv) : res bool :=   (* Ok true = CEL condition, Ok false = default *)
+(** getExecutionCondition *)
+Definition cond_res (c : condv) : res (option nat) :=
   match c with
-  | CondNil => Ok false
-  | CondOk => Ok true
+  | CondNil => Ok None
+  | CondOk n => Ok (Some n)
   | CondEmpty | CondNotStr | CondBadCel => Rejected
   end.
 
 (** [checkMechanismReference] (the id is a string, the config — if present — a
-    map; since fix f8fe9cb, finding C19-F3: before that the unchecked [id.(string)]
-    and [getConfig] panicked here), then the factory call. *)
-Definition create (k : kind) (kv : keyv) (cfg : cfgv) (cond : bool) : res mech :=
+    map), [getConfig], then the factory call with that config. *)
+Definition create (k : kind) (kv : keyv) (cfg : cfgv) (cond : option nat) : res mech :=
   match k_id kv with
   | None => Rejected
   | Some id =>
     match cfg with
     | CfgBad => Rejected
-    | _ => if k_ok kv then Ok {| m_kind := k; m_id := id; m_cond := cond |} else Rejected
+    | CfgNil => if k_ok kv then Ok {| m_kind := k; m_id := id; m_cond := cond; m_cfg := None |} else Rejected
+    | CfgMap n => if k_ok kv then Ok {| m_kind := k; m_id := id; m_cond := cond; m_cfg := Some n |} else Rejected
     end
   end.
 
-(** createHandler after the key was found: check, condition, creation *)
+(** createHandler after the key was found: order check, condition, reference, creation *)
 Definition create_handler (k : kind) (kv : keyv) (st : step) (check_ok : bool) : res mech :=
   if negb check_ok then Rejected else
   match cond_res (s_if st) with
@@ -102,7 +121,7 @@ Definition exec_step (p : pipes) (st : step) : res pipes :=
   | None => Rejected                (* "unsupported configuration in execute" *)
   | Some (k, kv) =>
     let r := match k with
-             | KAuthn => if order_okb p k then create KAuthn kv (s_cfg st) false else Rejected
+             | KAuthn => if order_okb p k then create KAuthn kv (s_cfg st) None else Rejected
              | _ => create_handler k kv st (order_okb p k)
              end in
     match r with
@@ -122,18 +141,16 @@ Fixpoint exec_pipeline (p : pipes) (sts : list step) : res pipes :=
 
 Definition empty_pipes := {| p_a := []; p_h := []; p_f := [] |}.
 
+(** createOnErrorPipeline: reference check, condition, creation *)
 Definition eh_step (e : ehstep) : res mech :=
   match e_key e with
   | None => Rejected                 (* "unsupported configuration in error handler" *)
   | Some kv =>
-    match e_cfg e with
-    | CfgBad => Rejected             (* checkMechanismReference runs first here (fix f8fe9cb) *)
-    | _ =>
+    match k_id kv, e_cfg e with
+    | None, _ | _, CfgBad => Rejected
+    | Some _, _ =>
       match cond_res (e_if e) with
-      | Ok c => match k_id kv with
-                | None => Rejected
-                | Some id => if k_ok kv then Ok {| m_kind := KEh; m_id := id; m_cond := c |} else Rejected
-                end
+      | Ok c => create KEh kv (e_cfg e) c
       | Rejected => Rejected | Panic => Panic
       end
     end
@@ -179,23 +196,19 @@ Record rule_def := {
 
 Definition or_default (own def : list mech) : list mech := if is_nil own then def else own.
 
-(** CreateRule.  [fixed_bt = false] is the code as it is at the pinned commit
-    (finding C14-F1: the rule's own backtracking_enabled is only honoured when a
-    default rule exists); the parameter exists so that the specification and the
-    repaired behaviour can be stated with the same function. *)
-Definition create_rule (fixed_bt : bool) (proxy : bool) (def : option effective) (r : rule_def) : res effective :=
+(** CreateRule (the tree as it is, i.e. after the fix: commit 97aaffa for finding C14-F1) *)
+Definition create_rule (proxy : bool) (def : option effective) (r : rule_def) : res effective :=
   if proxy && negb (r_backend r) then Rejected else
   match exec_pipeline empty_pipes (r_exec r) with
   | Ok p =>
     match eh_pipeline [] (r_eh r) with
     | Ok eh =>
-      let own_bt := match r_bt r with Some b => b | None => false end in
       let e := match def with
                | Some d => {| f_sc := or_default (p_a p) (f_sc d); f_sh := or_default (p_h p) (f_sh d);
                               f_fi := or_default (p_f p) (f_fi d); f_eh := or_default eh (f_eh d);
                               f_bt := match r_bt r with Some b => b | None => f_bt d end |}
                | None => {| f_sc := p_a p; f_sh := p_h p; f_fi := p_f p; f_eh := eh;
-                            f_bt := if fixed_bt then own_bt else false |}
+                            f_bt := match r_bt r with Some b => b | None => false end |}
                end in
       if is_nil (f_sc e) then Rejected
       else if negb (r_matchers_ok r) then Rejected
@@ -206,30 +219,191 @@ Definition create_rule (fixed_bt : bool) (proxy : bool) (def : option effective)
   end.
 
 (** the whole loader: default rule first (its failure prevents start-up), then the rule *)
-Inductive load_res := FactoryFailed | FactoryPanic | Loaded (r : res effective).
+Inductive load_res (O : Type) := FactoryFailed | FactoryPanic | Loaded (r : res O).
+Arguments FactoryFailed {O}. Arguments FactoryPanic {O}. Arguments Loaded {O} r.
 
-Definition load (fixed_bt proxy : bool) (d : option default_def) (r : rule_def) : load_res :=
+Definition with_default {X} (d : option default_def) (failed panicked : X) (k : option effective -> X) : X :=
   match d with
-  | None => Loaded (create_rule fixed_bt proxy None r)
+  | None => k None
   | Some dd => match init_default dd with
-               | Ok e => Loaded (create_rule fixed_bt proxy (Some e) r)
-               | Rejected => FactoryFailed
-               | Panic => FactoryPanic
+               | Ok e => k (Some e)
+               | Rejected => failed
+               | Panic => panicked
                end
   end.
+
+Definition load (proxy : bool) (d : option default_def) (r : rule_def) : load_res effective :=
+  with_default d FactoryFailed FactoryPanic (fun def => Loaded (create_rule proxy def r)).
+
+(** ** Execution: rule_impl.go Execute *)
+
+(** A probe is one request together with the way the stub mechanisms of the
+    harness behave for it: the request method (the conditions of the driver's
+    table look only at it) and which stage fails.  [FAuthn]: every authenticator
+    fails with an argument error (so the composite falls back to the next one)
+    and the error handlers answer "not applicable" (so the composite tries every
+    one); [FMid]/[FFin]: every authorizer and contextualizer / every finalizer
+    fails, the error handlers handle. *)
+Inductive fail := FNone | FAuthn | FMid | FFin.
+Record probe := { pr_meth : nat; pr_fail : fail }.
+
+(** an executed mechanism as the stubs log it *)
+Definition tmech := (kind * nat * option nat)%type.
+Definition tm (m : mech) : tmech := (m_kind m, m_id m, m_cfg m).
+
+Definition fails (p : probe) (m : mech) : bool :=
+  match pr_fail p, m_kind m with
+  | FAuthn, KAuthn | FMid, KAuthz | FMid, KCtx | FFin, KFin => true
+  | _, _ => false
+  end.
+
+Definition passthrough (p : probe) : bool := match pr_fail p with FAuthn => true | _ => false end.
+
+Section Exec.
+  (** the CEL oracle: does condition number [c] hold for a request with method [m] *)
+  Variable holds : nat -> nat -> bool.
+
+  Definition applicable (p : probe) (m : mech) : bool :=
+    match m_cond m with None => true | Some c => holds c (pr_meth p) end.
+
+  (** compositeSubjectCreator.Execute: the first authenticator that succeeds
+      ends the loop; a failing one (argument error) is followed by the next; the
+      error of the last one is returned.  An empty list returns (nil, nil). *)
+  Fixpoint run_authn (p : probe) (sc : list mech) : list tmech * bool :=
+    match sc with
+    | [] => ([], false)
+    | a :: r => if fails p a
+                then match r with
+                     | [] => ([tm a], true)
+                     | _ => let '(t, e) := run_authn p r in (tm a :: t, e)
+                     end
+                else ([tm a], false)
+    end.
+
+  (** compositeSubjectHandler.Execute over conditionalSubjectHandlers
+      (ContinueOnError is false for the stubs) *)
+  Fixpoint run_handlers (p : probe) (hs : list mech) : list tmech * bool :=
+    match hs with
+    | [] => ([], false)
+    | h :: r => if applicable p h
+                then if fails p h then ([tm h], true)
+                     else let '(t, e) := run_handlers p r in (tm h :: t, e)
+                else run_handlers p r
+    end.
+
+  (** compositeErrorHandler.Execute over conditionalErrorHandlers; second
+      component: the error was handled *)
+  Fixpoint run_eh (p : probe) (hs : list mech) : list tmech * bool :=
+    match hs with
+    | [] => ([], false)
+    | h :: r => if applicable p h
+                then if passthrough p then let '(t, e) := run_eh p r in (tm h :: t, e)
+                     else ([tm h], true)
+                else run_eh p r
+    end.
+
+  (** ruleImpl.Execute: (Execute returned an error, trace) *)
+  Definition run (e : effective) (p : probe) : bool * list tmech :=
+    let on_error (t : list tmech) := let '(te, handled) := run_eh p (f_eh e) in (negb handled, t ++ te) in
+    let '(ta, ea) := run_authn p (f_sc e) in
+    if ea then on_error ta else
+    let '(th, eh) := run_handlers p (f_sh e) in
+    if eh then on_error (ta ++ th) else
+    let '(tf, ef) := run_handlers p (f_fi e) in
+    if ef then on_error (ta ++ th ++ tf) else (false, ta ++ th ++ tf).
+
+  (** the fixed probe set of the harness: 3 methods x 4 failure modes *)
+  Definition probes : list probe :=
+    flat_map (fun f => map (fun m => {| pr_meth := m; pr_fail := f |}) [0; 1; 2]) [FNone; FAuthn; FMid; FFin].
+
+  (** what the harness observes of a loaded rule, through rule.Rule only:
+      Execute on every probe and AllowsBacktracking() *)
+  Record robs := { o_runs : list (bool * list tmech); o_bt : bool }.
+
+  Definition runs_of (e : effective) : list (bool * list tmech) := map (run e) probes.
+  Definition observe (e : effective) : robs := {| o_runs := runs_of e; o_bt := f_bt e |}.
+End Exec.
+
+(** the coarser observation of the real-factory stream: ids per stage *)
+Record iobs := { i_sc : list (kind * nat); i_sh : list (kind * nat); i_fi : list (kind * nat);
+                 i_eh : list (kind * nat); i_bt : bool }.
+Definition km (m : mech) : kind * nat := (m_kind m, m_id m).
+Definition observe_ids (e : effective) : iobs :=
+  {| i_sc := map km (f_sc e); i_sh := map km (f_sh e); i_fi := map km (f_fi e); i_eh := map km (f_eh e);
+     i_bt := f_bt e |}.
+
+Definition map_res {A B} (f : A -> B) (r : res A) : res B :=
+  match r with Ok a => Ok (f a) | Rejected => Rejected | Panic => Panic end.
+Definition map_load {A B} (f : A -> B) (r : load_res A) : load_res B :=
+  match r with FactoryFailed => FactoryFailed | FactoryPanic => FactoryPanic | Loaded x => Loaded (map_res f x) end.
+
+(** ** Rule sets: parser validation, ruleSetProcessor, repository *)
 
 (** ruleSetProcessor.loadRules: the rules of a rule set are created one after
     the other; the first failure aborts the whole set (nothing is handed to the
     repository). *)
-Fixpoint load_rules (fixed_bt proxy : bool) (def : option effective) (rs : list rule_def) : res (list effective) :=
+Fixpoint load_rules (proxy : bool) (def : option effective) (rs : list rule_def) : res (list effective) :=
   match rs with
   | [] => Ok []
   | r :: rest =>
-    match create_rule fixed_bt proxy def r with
-    | Ok e => match load_rules fixed_bt proxy def rest with
+    match create_rule proxy def r with
+    | Ok e => match load_rules proxy def rest with
               | Ok es => Ok (e :: es)
               | Rejected => Rejected | Panic => Panic
               end
     | Rejected => Rejected | Panic => Panic
     end
   end.
+
+(** what the rule-set parser's validation (rules/config/rule.go) refuses before
+    the factory sees any rule of the set: a rule without any `execute` step
+    (validate:"gt=0"), an empty method name *)
+Definition parse_ok (r : rule_def) : bool := negb (is_nil (r_exec r)) && r_matchers_ok r.
+
+Record set_def := { sd_version_ok : bool; sd_rules : list rule_def }.
+
+(** ParseRules, then OnCreated / OnUpdated up to the call of the repository *)
+Definition load_ruleset (proxy : bool) (def : option effective) (sd : set_def) : res (list effective) :=
+  if negb (forallb parse_ok (sd_rules sd)) then Rejected
+  else if negb (sd_version_ok sd) then Rejected          (* isVersionSupported *)
+  else load_rules proxy def (sd_rules sd).
+
+(** the rules of the source after the operation: AddRuleSet / UpdateRuleSet are
+    reached only with a completely loaded set *)
+Definition after (old : list effective) (r : res (list effective)) : list effective :=
+  match r with Ok es => es | _ => old end.
+
+Definition is_ok {A} (r : res A) : bool := match r with Ok _ => true | _ => false end.
+
+(** the rule the harness preloads [k] times (ids r0.., paths /p0..) before an
+    update: one authenticator "9", forward_to present *)
+Definition old_rule_def : rule_def :=
+  {| r_exec := [ {| s_authn := Some {| k_id := Some 9; k_ok := true |}; s_authz := None; s_ctx := None;
+                    s_fin := None; s_if := CondNil; s_cfg := CfgNil |} ];
+     r_eh := []; r_bt := None; r_backend := true; r_matchers_ok := true |}.
+
+Definition old_rules (proxy : bool) (def : option effective) (k : nat) : list effective :=
+  match create_rule proxy def old_rule_def with Ok e => repeat e k | _ => [] end.
+
+Section Serve.
+  Variable holds : nat -> nat -> bool.
+
+  (** which rule answers a request for path /p<i> (rule i of the source has that
+      path; repository.FindRule falls back to the default rule) *)
+  Inductive served := SNone | SDefault (runs : list (bool * list tmech)) | SRule (o : robs).
+
+  Definition lookup (def : option effective) (rules : list effective) (i : nat) : served :=
+    match nth_error rules i with
+    | Some e => SRule (observe holds e)
+    | None => match def with Some d => SDefault (runs_of holds d) | None => SNone end
+    end.
+
+  Definition paths : list nat := [0; 1; 2; 3].
+
+  Inductive set_res := SFactoryFailed | SFactoryPanic | SPanic | SDone (accepted : bool) (sv : list served).
+
+  Definition run_set (proxy : bool) (d : option default_def) (preload : nat) (sd : set_def) : set_res :=
+    with_default d SFactoryFailed SFactoryPanic (fun def =>
+      let r := load_ruleset proxy def sd in
+      SDone (is_ok r) (map (lookup def (after (old_rules proxy def preload) r)) paths)).
+End Serve.
